@@ -56,8 +56,9 @@ def mc(ctx, tag, consts, invariants, expect=None, properties=(), spec='Spec',
 
 def _replay_job(job):
     from harness.drivers import lifecycle
-    steps, chans, reject, final, win = job
-    return lifecycle.replay(steps, chans, reject, final=final, win=win)
+    steps, chans, reject, final, win = job[:5]
+    return lifecycle.replay(steps, chans, reject, final=final, win=win,
+                            prefix=len(job) > 5 and job[5])
 
 
 def par_replay(jobs, procs=8):
@@ -280,6 +281,10 @@ def main(ctx):
     b.mc('c09_sens5', dict(flow, MaxOps=6,
                               FlowVariant='"no_reply_closing"'),
        ['CreateDecided'], expect='CreateDecided')
+    b.mc('c09_flow1', dict(flow, Win=1, MaxOps=7), INVS + FLOW)
+    b.mc('c09_sens6', dict(flow, Win=1, MaxOps=7,
+                            FlowVariant='"no_credit_closing"'),
+         ['CloseCompletes'], expect='CloseCompletes')
     b.mc('c09_w4', dict(flow, MaxOps=6), ['NeverSendPending'],
        expect='NeverSendPending')
     b.mc('c09_w5', dict(flow, MaxOps=6), ['NeverAdjAfterEof'],
@@ -347,7 +352,9 @@ def main(ctx):
                             else 5, WithData='TRUE', ConnOps='FALSE'),
              300 if quick else 4000),
             ('coverF', dict(flow, MaxOps=6 if quick else 7),
-             300 if quick else 8000)]
+             220 if quick else 8000),
+            ('coverF1', dict(flow, Win=1, MaxOps=7),
+             200 if quick else 8000)]
 
     def cls(script, st):
         return (str([st[k] for k in ('ss', 'rs', 'reading', 'createW',
@@ -377,6 +384,29 @@ def main(ctx):
             k = cls(sc, st)
             (rest if k in seen else first).append((sc, st))
             seen.add(k)
+        # ... and before both: scripts chosen greedily so that every operation
+        # in every context (its label carries the channel states it was
+        # applied in, on both sides) occurs in at least one replayed script
+        ops_of = [frozenset(str(l) for l in sc if l[0] not in
+                            ('chunk', 'deliver', 'run')) for sc, _ in scripts]
+        need = set().union(*ops_of) if ops_of else set()
+        ctx.coverage[f'op_contexts_{name}'] = len(need)
+        chosen, left = [], set(range(len(scripts)))
+        while need:
+            best = max(left, key=lambda i: (len(ops_of[i] & need), -i))
+            if not ops_of[best] & need:
+                break
+            chosen.append(best)
+            need -= ops_of[best]
+            left.discard(best)
+        cover = [scripts[i] for i in chosen]
+        picked = set(chosen)
+        first = [x for i, x in enumerate(scripts)
+                 if i not in picked and x in first]
+        rest = [x for i, x in enumerate(scripts)
+                if i not in picked and x not in first]
+        first = cover + first
+        ctx.coverage[f'op_cover_scripts_{name}'] = len(cover)
         ctx.coverage.setdefault('state_classes_covered', 0)
         ctx.coverage['state_classes_covered'] += len(first)
         ctx.coverage[f'scripts_{name}'] = (len(first), len(scripts))
@@ -395,6 +425,46 @@ def main(ctx):
                               replay={'kind': 'script', 'config': name,
                                       'script': r['script'], 'chans': chans,
                                       'reject': reject, 'win': d['Win']})
+            elif r['diverged']:
+                ctx.divergence(f'{name}: {r["diverged"]} script='
+                               f'{r["script"]}')
+    # every application operation in every context (own channel states, the
+    # peer's send state): the shortest behaviour ending with it, then
+    # everything in flight is delivered and the monitors judge.  Contexts
+    # that exist only in passing (both ends closing with unsent data) leave
+    # no trace in a quiescent final state and are reached only this way.
+    ctxs = [('ctxF', dict(flow, MaxOps=6 if quick else 7)),
+            ('ctxF1', dict(flow, Win=1, MaxOps=7)),
+            ('ctxD', dict(WithData='TRUE', ConnOps='FALSE', Cuts=0,
+                          MaxOps=5 if quick else 6))]
+    for name, consts in ctxs:
+        tg = f'c09_{name}_{os.getpid()}'
+        cfg, d = write_cfg(f'_{tg}.cfg', consts, invariants=['EmitOpCtx'],
+                           view=True)
+        scripts, res = tlc.bfs_scripts(SPEC, 'Lifecycle', cfg, tg)
+        ctx.require_tlc_ok(f'Lifecycle {name} (operation contexts) {consts}',
+                           res)
+        tlc.cleanup(tg)
+        os.remove(os.path.join(SPEC, cfg))
+        ctx.require(len(scripts) > 30, f'too few operation contexts for '
+                    f'{name}: {len(scripts)}')
+        ctx.coverage[f'op_contexts_{name}'] = len(scripts)
+        jobs = [([(lbl, None) for lbl in sc], [1], [], None, d['Win'], True)
+                for sc, _ in scripts]
+        for r in par_replay(jobs):
+            r['l1'] = [b for b in r['l1']
+                       if not b.startswith('DataBeforeClose')]   # C07's
+            total += 1
+            ctx.count((name, tuple(map(str, r['script']))))
+            if r['l1']:
+                ctx.violation({'module': 'Lifecycle',
+                               'clauses': sorted({c.split(':')[0]
+                                                  for c in r['l1']})},
+                              '; '.join(r['l1'][:4]),
+                              replay={'kind': 'script', 'config': name,
+                                      'script': r['script'], 'chans': [1],
+                                      'reject': [], 'win': d['Win'],
+                                      'prefix': True})
             elif r['diverged']:
                 ctx.divergence(f'{name}: {r["diverged"]} script='
                                f'{r["script"]}')
